@@ -665,6 +665,16 @@ def written_extent(eng: SiblingEngine, fi: FuncInfo, rule: str = 'R18.3', length
         e.call_adapters = side.call_adapters
         for nm, f in side.lens.items():
             e.lens[('n', nm)] = f(e)
+        # once-assigned length names of the function (`N = len(x)` at its top level) are known in every part
+        for st in fi.node.body:
+            if isinstance(st, ast.Assign) and len(st.targets) == 1 and isinstance(st.targets[0], ast.Name) \
+                    and isinstance(st.value, ast.Call) and isinstance(st.value.func, ast.Name) and st.value.func.id == 'len' \
+                    and sum(1 for n in ast.walk(fi.node) if isinstance(n, ast.Name) and n.id == st.targets[0].id
+                            and isinstance(n.ctx, ast.Store)) == 1:
+                try:
+                    e.vals[st.targets[0].id] = C.canon_expr(st.value, e)
+                except C.CanonError:
+                    pass
         return e
 
     def apply(stores, W: Dict[str, Optional[Tuple[C.Term, C.Term]]], where: str) -> Optional[str]:
